@@ -879,7 +879,7 @@ def md_apply(d, op, ds):
 def md_ret(r):
     if r is None:
         return "~"
-    if isinstance(r, str):
+    if isinstance(r, str) or hasattr(r, "filename"):
         return o_s(r)
     if isinstance(r, list):
         return o_strs(r)
@@ -900,6 +900,8 @@ def md_line_op(op):
         return f"{n},{hs(op[1])},{e_atoms(op[2])}"
     if n in ("update", "ior", "or"):
         t, b = e_arg(op[1])
+        if t == "H":
+            t = "P"  # a Headers argument is an iterable of pairs for MultiDict
         return f"{n},{t},{b}"
     if n == "pop":
         return f"pop,{hs(op[1])},{e_opt(op[2])}"
@@ -1383,6 +1385,23 @@ class HeaderSetStream(OpsStream):
         return run_history(s, case["ops"], lambda o, op: o.apply(op), lambda r: "~", lambda x: hs_dump(x, self.probes), case.get("all", 0))
 
 
+CMD_DOPS = [
+    ["setitem", "a", "1"],
+    ["add", "a", "x"],
+    ["add", "b", "1"],
+    ["add", "zz", "9"],
+    ["setlist", "a", ["x", "2"]],
+    ["setlist", "b", []],
+    ["delitem", "a"],
+    ["pop", "a", None],
+    ["popitem"],
+    ["clear"],
+    ["setlistdefault", "a", []],
+    ["update", ["P", [["b", "7"], ["a", "8"]]]],
+]
+CMD_CMUT = ["setitem", "delitem", "add", "setlist", "setdefault", "setlistdefault", "update", "ior", "pop", "popitem", "poplist", "popitemlist", "clear"]
+
+
 class CombinedStream(OpsStream):
     name = "ops-combined"
     probes = ["a", "b", "A", "zz"]
@@ -1392,25 +1411,10 @@ class CombinedStream(OpsStream):
         [],
         [["P", [["a", "x"], ["a", "1"]]], ["P", [["a", "2"]]], ["D", [["b", ["5", "y"]]]]],
     ]
-    DOPS = [
-        ["setitem", "a", "1"],
-        ["add", "a", "x"],
-        ["add", "b", "1"],
-        ["add", "zz", "9"],
-        ["setlist", "a", ["x", "2"]],
-        ["setlist", "b", []],
-        ["delitem", "a"],
-        ["pop", "a", None],
-        ["popitem"],
-        ["clear"],
-        ["setlistdefault", "a", []],
-        ["update", ["P", [["b", "7"], ["a", "8"]]]],
-    ]
-    CMUT = ["setitem", "delitem", "add", "setlist", "setdefault", "setlistdefault", "update", "ior", "pop", "popitem", "poplist", "popitemlist", "clear"]
-    FULL = [["d", i] + op for i in (0, 1) for op in DOPS] + [["c", n] for n in CMUT]
-    CORE = [["d", i] + op for i in (0, 1) for op in DOPS[:9]] + [["c", "add"], ["c", "clear"]]
-    SMALL = [["d", i] + op for i in (0, 1) for op in DOPS[:6]] + [["c", "setitem"]]
-    TINY = [["d", i] + op for i in (0, 1) for op in DOPS[1:5]]
+    FULL = [["d", i] + op for i in (0, 1) for op in CMD_DOPS] + [["c", n] for n in CMD_CMUT]
+    CORE = [["d", i] + op for i in (0, 1) for op in CMD_DOPS[:9]] + [["c", "add"], ["c", "clear"]]
+    SMALL = [["d", i] + op for i in (0, 1) for op in CMD_DOPS[:6]] + [["c", "setitem"]]
+    TINY = [["d", i] + op for i in (0, 1) for op in CMD_DOPS[1:5]]
 
     def cases(self, rng, tier):
         for c in super().cases(rng, tier):
